@@ -320,6 +320,7 @@ def shards(tier, seed):
     items += [('small', lo, min(len(sc), lo + 6)) for lo in range(0, len(sc), 6)]
     items += [('cap', tier, c) for c in capacity_cases(tier)]
     items += [('u60',), ('endings',), ('chain', tier), ('history',)]
+    items += [('programs', tier, k) for k in range(8)]
     items.sort(key=lambda it: 0 if it[0] == 'cap' else 1)
     return items
 
@@ -380,6 +381,10 @@ def run_shard(item):
         for i, code in enumerate([b'x=1 x=1 x=1 x=1 x=1 x=1\r\ny=2 y=2 y=2 y=2 y=2\r\n', b'x=1\r\n', b'x=1\n\n\n',
                                   b'x=1 x=1 x=1 x=1 x=1 x=1 x=1 x=1\n\n', b'\n', b'x=1\rx=2 x=2 x=2 x=2 x=2 x=2']):
             write_and_check({}, 33, code, None, res, ('endings', i))
+    elif kind == 'programs':
+        from props import c03
+        for j, code in enumerate(c03.packed_programs(item[1], item[2], 8)):
+            write_and_check({}, 33, code, None if j % 2 else 1, res, ('programs', item[2], j))
     elif kind == 'history':
         from props import c03
         r = ShardResult()
@@ -422,6 +427,10 @@ def replay(case):
             write_and_check(carts.region_fills(0, 0), 33, U60[tag[1]], dest, res, tag)
     elif kind == 'endings':
         res.merge(run_shard(('endings',)))
+    elif kind == 'programs':
+        from props import c03
+        code = c03.packed_programs('quick', tag[1], 8)[tag[2]]
+        write_and_check({}, 33, code, None if tag[2] % 2 else 1, res, tag)
     elif kind == 'history':
         res.merge(run_shard(('history',)))
     elif kind == 'chain':
